@@ -32,6 +32,15 @@ def full_stage(chk, pid, tier, seed):
         inp, opts, feats = GF.gen_full(rng, "small" if i % 3 else "medium")
         meta[str(i)] = (inp, opts)
         blocks.append((str(i), GF.case_lines(inp, opts, {"iterations": 100, "duration_ms": 2500, "runs": 1 + (i % 5 == 0), "starts": 1 + (i % 4 == 0), "output": 2})))
+    if pid == "C05":
+        # objective terms that the general stream seldom switches on: capacity excess as an objective (constraint off for one or
+        # all resources), min-stops shortfall, stop balance
+        for i in range(80 if tier == "quick" else 2500):
+            inp, opts, feats = GF.gen_full(rng, "small" if i % 3 else "medium", force={"capacity": True, "capacity_objective": 0.8, "minstops": True})
+            opts["objectives"]["min_stops"] = 1.0
+            opts["objectives"]["stop_balance"] = rng.choice([0.0, 1.0, 2.5])
+            meta["t%d" % i] = (inp, opts)
+            blocks.append(("t%d" % i, GF.case_lines(inp, opts, {"iterations": 100, "duration_ms": 2500, "runs": 1, "starts": 1, "output": 2})))
     res = CR.run_crash(blocks, "%s_full_%s" % (pid.lower(), tier), timeout=3000)
     nout = nviol = 0
     for cid, r in res.items():
